@@ -68,6 +68,12 @@ func (c11) Generate(r *sim.Rand, tier string) *sim.Scenario {
 		O = r.Range(5, 17)
 	}
 	batch := []int{1, 1, 2, 3, 4, 6, 1, 2, 5, 17, 24, 33}[r.Intn(12)]
+	if wideLayer {
+		batch = r.Range(1, 6) // keep the wide flavour cheap: small batches, few outputs, few steps
+		if O > 4 {
+			O = r.Range(1, 4)
+		}
+	}
 	nb := r.Range(1, 3)
 	act := r.Intn(6)
 	// favour sensible pairings but keep all
@@ -152,7 +158,10 @@ func (c11) Generate(r *sim.Rand, tier string) *sim.Scenario {
 		nsteps = r.Range(13, 30) // long histories (fault enumeration grows with the square: kept rare)
 	}
 	pf := []float64{0, 0, 0.15, 0.3}[r.Intn(4)]
-	long := r.Bool(0.015)
+	if wideLayer && nsteps > 6 {
+		nsteps = r.Range(1, 6)
+	}
+	long := !wideLayer && r.Bool(0.015)
 	if long {
 		// a long training run on one model, one optimizer, one set of component
 		// objects (per-object state that only matters after many steps): small
